@@ -197,6 +197,7 @@ func c14History(c *Ctx, idx int) {
 		return true
 	}
 
+	origin := map[string]string{}
 	for s := 0; s < steps; s++ {
 		x := rng.Intn(100)
 		switch {
@@ -246,6 +247,7 @@ func c14History(c *Ctx, idx int) {
 				id := fmt.Sprintf("%d_%d", idx, evSeq)
 				ev := schemaEvent(id, rng.Intn(15))
 				injected[id] = ev
+				origin[id] = shape.String()
 				expect[id] = ex
 				if bed.Cluster.Emit(ev) < len(beds) {
 					delete(expect, id)
@@ -282,6 +284,7 @@ func c14History(c *Ctx, idx int) {
 				id := fmt.Sprintf("%d_%d", idx, evSeq)
 				ev := schemaEvent(id, rng.Intn(15))
 				injected[id] = ev
+				origin[id] = shape.String()
 				expect[id] = ex
 				if bed.Cluster.Emit(ev) < len(beds) {
 					delete(expect, id)
@@ -304,6 +307,10 @@ func c14History(c *Ctx, idx int) {
 			}
 			if !controlUp() {
 				r.Inconc("c14: control connection did not come back after it ended behind a burst")
+				return
+			}
+			// the burst is delivered (behind the reconnect) before any client is touched again
+			if !barrier() {
 				return
 			}
 			r.Obs("bursts_followed_by_control_close", 1)
@@ -420,6 +427,7 @@ func c14History(c *Ctx, idx int) {
 				default:
 					ev := schemaEvent(id, rng.Intn(15))
 					injected[id] = ev
+					origin[id] = shape.String()
 					expect[id] = ex
 					if bed.Cluster.Emit(ev) < len(beds) {
 						// the control connection is not up on every proxy: the premise does not hold for this event
@@ -453,7 +461,7 @@ func c14History(c *Ctx, idx int) {
 			case ex.must[cc]:
 				r.Obs("must_deliveries_checked", 1)
 				if len(got) != 1 {
-					r.Violate(mon.Violation{Signature: fmt.Sprintf("C14/registered-client-got-%s", countClass(len(got))), Detail: fmt.Sprintf("client %d (registered for %v before the event, connected throughout) received schema event %s %d times", cc.cl.ID, cc.regTypes, id, len(got)), Scenario: scenario})
+					r.Violate(mon.Violation{Signature: fmt.Sprintf("C14/registered-client-got-%s", countClass(len(got))), Detail: fmt.Sprintf("client %d (registered for %v before the event, connected throughout) received schema event %s %d times (history up to the event's burst: %s; whole history: %s)", cc.cl.ID, cc.regTypes, id, len(got), origin[id], shape.String()), Scenario: scenario})
 				}
 			case ex.may[cc]:
 				r.Obs("may_deliveries_checked", 1)
